@@ -72,5 +72,5 @@ def run(args):
     rep.units = ["SO2/SE2/SO3/SE3/SE_2_3/SGal3 double drivers"]
     rep.trusted = ["sympy series / limits", "unit-norm invariant of valid elements (w^2 + |v|^2 = 1)", "clang AST"]
     rep.assumptions = ["NOT decided: exp(log X) = X and log(exp t) = t as numerical round trips and beyond order 5 of the Taylor expansion at the origin; behaviour near theta = pi; finiteness for all valid X"]
-    rep.checker_cmd = "manif-sa plugin + engine/jeteval.py + engine/rules_jet.py"
+    rep.checker_cmd = "manif-sa plugin + engine/jeteval.py + engine/rules_jet.py (R-JET) + engine/jetnum.py + engine/rules_series.py (R-SERIES)"
     return rep.finish()
